@@ -101,6 +101,12 @@ impl Ctx {
         return;
       }
     }
+    if let Ok(path) = std::env::var("VERIF_DUMP") {
+      use std::io::Write;
+      if let Ok(mut f) = std::fs::OpenOptions::new().create(true).append(true).open(path) {
+        let _ = writeln!(f, "{}\t{}", signatures.join("|"), message);
+      }
+    }
     let cnt = self.sig_counts.entry(signatures.join("|")).or_insert(0);
     *cnt += 1;
     let written = self.violations.iter().filter(|(_, p)| !p.as_os_str().is_empty()).count();
